@@ -188,6 +188,11 @@ func c18(c *Ctx) {
 			for sw := 0; sw < sweeps; sw++ {
 				for k := 0; k <= w+2; k++ {
 					os.Remove(path)
+					if (k+sw)%3 == 2 {
+						// the destination already exists as an empty file (a reserved name)
+						os.WriteFile(path, nil, 0600)
+						c.R.Inc("cancels_with_preexisting_empty_destination", 1)
+					}
 					st := &cancelAt{k: k, ch: make(chan struct{})}
 					if k == 0 {
 						close(st.ch) // closed before the call
